@@ -39,9 +39,18 @@ class Custom(torch.nn.Module):
         self.inner = torch.nn.Sequential(torch.nn.Conv2d(1, 1, 1), torch.nn.Sequential(torch.nn.ReLU(), torch.nn.Linear(3, 2)))
 
 
+def _tied():
+    """an embedding whose weight Parameter is shared with an eligible Linear (weight tying), and a bias shared by two modules"""
+    m = torch.nn.ModuleDict({"embed": torch.nn.Embedding(5, 3), "body": torch.nn.Linear(3, 3), "norm": torch.nn.LayerNorm(3), "head": torch.nn.Linear(3, 5, bias=False)})
+    m["head"].weight = m["embed"].weight
+    m["norm"].bias = m["body"].bias
+    return m
+
+
 def trees():
     shared = torch.nn.Linear(3, 3)
     return {
+        "tied": _tied,
         "flat": lambda: torch.nn.Sequential(torch.nn.Linear(3, 3), torch.nn.ReLU(), torch.nn.LayerNorm(3), torch.nn.Conv2d(1, 1, 1)),
         "nested-digits": lambda: torch.nn.Sequential(torch.nn.Linear(3, 3), torch.nn.Sequential(torch.nn.ReLU(), torch.nn.Linear(3, 3)), torch.nn.Sequential(torch.nn.Sequential(torch.nn.Linear(3, 1)))),
         "modulelist": lambda: torch.nn.ModuleList([torch.nn.Linear(3, 3), torch.nn.ModuleList([torch.nn.Linear(3, 3), torch.nn.Tanh()])]),
@@ -127,8 +136,8 @@ def structure_problems(tree_name, weights, activations, filt):
     model = trees()[tree_name]()
     before = {n: m for n, m in model.named_modules()}
     hp = {n: hyper(m) for n, m in before.items()}
-    pvals = {n: p.detach().clone() for n, p in model.named_parameters()}
-    dts = {n: (p.dtype, p.device) for n, p in model.named_parameters()}
+    pvals = {n: p.detach().clone() for n, p in model.named_parameters(remove_duplicate=False)}
+    dts = {n: (p.dtype, p.device) for n, p in model.named_parameters(remove_duplicate=False)}
     eligible = {n for n, m in before.items() if type(m) in (torch.nn.Linear, torch.nn.Conv2d) or (type(m) is torch.nn.LayerNorm and activations is not None)}
     mods = None
     if filt == "first-half":
@@ -168,6 +177,11 @@ def structure_problems(tree_name, weights, activations, filt):
                 probs.append(f"{n!r}: non-selected module was replaced by {type(m).__name__}")
             elif isinstance(m, QModuleMixin):
                 probs.append(f"{n!r}: non-selected module is quantized")
+            # a module that is not replaced keeps its own parameters bit for bit (they may be shared with a replaced module)
+            for pn, p in m._parameters.items():
+                full = f"{n}.{pn}" if n else pn
+                if p is not None and full in pvals and (p.shape != pvals[full].shape or (p.dtype, p.device) != dts[full] or not torch.equal(p.detach(), pvals[full])):
+                    probs.append(f"{full}: parameter of a module that was not replaced changed ({tuple(pvals[full].shape)} -> {tuple(p.shape)})")
     return probs
 
 
